@@ -143,7 +143,7 @@ Example monitor_rejects_protected_closed :
     [(Connected 0 0, mkObs 1 [(true, 0, 0); (false, 0, 0)] []);
      (Connected 1 0, mkObs 2 [(true, 0, 0); (true, 0, 0)] []);
      (Protect 0 0,   mkObs 2 [(true, 0, 0); (true, 0, 0)] []);
-     (Trim,          mkObs 2 [(true, 0, 0); (true, 0, 0)] [(0%nat, 0%nat)])] = [ERR_PROPERTY; 3; 1].
+     (Trim,          mkObs 2 [(true, 0, 0); (true, 0, 0)] [(0%nat, 0%nat)])] = [ERR_PROPERTY; 3; 11].
 Proof. vm_compute. reflexivity. Qed.
 
 (* ... a trim that closes a peer inside its grace period *)
@@ -152,7 +152,7 @@ Example monitor_rejects_grace_closed :
     [(Connected 0 0, mkObs 1 [(true, 0, 0); (false, 0, 0)] []);
      (Advance 5,     mkObs 1 [(true, 0, 0); (false, 0, 0)] []);
      (Connected 1 0, mkObs 2 [(true, 0, 0); (true, 0, 0)] []);
-     (Trim,          mkObs 2 [(true, 0, 0); (true, 0, 0)] [(1%nat, 0%nat)])] = [ERR_PROPERTY; 3; 1].
+     (Trim,          mkObs 2 [(true, 0, 0); (true, 0, 0)] [(1%nat, 0%nat)])] = [ERR_PROPERTY; 3; 11].
 Proof. vm_compute. reflexivity. Qed.
 
 (* ... a trim that closes a peer while a lower-valued eligible peer is kept *)
@@ -161,7 +161,7 @@ Example monitor_rejects_wrong_order :
     [(Connected 0 0, mkObs 1 [(true, 0, 0); (false, 0, 0)] []);
      (Connected 1 0, mkObs 2 [(true, 0, 0); (true, 0, 0)] []);
      (TagPeer 0 0 5, mkObs 2 [(true, 5, 5); (true, 0, 0)] []);
-     (Trim,          mkObs 2 [(true, 5, 5); (true, 0, 0)] [(0%nat, 0%nat)])] = [ERR_PROPERTY; 3; 1].
+     (Trim,          mkObs 2 [(true, 5, 5); (true, 0, 0)] [(0%nat, 0%nat)])] = [ERR_PROPERTY; 3; 12].
 Proof. vm_compute. reflexivity. Qed.
 
 (* ... a trim at the low watermark that closes something, one that leaves too many *)
@@ -169,7 +169,7 @@ Example monitor_rejects_trim_below_low :
   monitor (mkCfg 2 3 0 1 []) 2
     [(Connected 0 0, mkObs 1 [(true, 0, 0); (false, 0, 0)] []);
      (Connected 1 0, mkObs 2 [(true, 0, 0); (true, 0, 0)] []);
-     (Trim,          mkObs 2 [(true, 0, 0); (true, 0, 0)] [(0%nat, 0%nat)])] = [ERR_PROPERTY; 2; 1].
+     (Trim,          mkObs 2 [(true, 0, 0); (true, 0, 0)] [(0%nat, 0%nat)])] = [ERR_PROPERTY; 2; 13].
 Proof. vm_compute. reflexivity. Qed.
 
 Example monitor_rejects_too_many_left :
@@ -177,7 +177,7 @@ Example monitor_rejects_too_many_left :
     [(Connected 0 0, mkObs 1 [(true, 0, 0); (false, 0, 0); (false, 0, 0)] []);
      (Connected 1 0, mkObs 2 [(true, 0, 0); (true, 0, 0); (false, 0, 0)] []);
      (Connected 2 0, mkObs 3 [(true, 0, 0); (true, 0, 0); (true, 0, 0)] []);
-     (Trim,          mkObs 3 [(true, 0, 0); (true, 0, 0); (true, 0, 0)] [(0%nat, 0%nat)])] = [ERR_PROPERTY; 3; 1].
+     (Trim,          mkObs 3 [(true, 0, 0); (true, 0, 0); (true, 0, 0)] [(0%nat, 0%nat)])] = [ERR_PROPERTY; 3; 14].
 Proof. vm_compute. reflexivity. Qed.
 
 (* ... a wrong connection count, a wrong tag total, a forced trim that closes
@@ -197,5 +197,5 @@ Example monitor_rejects_forced_protected_first :
     [(Connected 0 0, mkObs 1 [(true, 0, 0); (false, 0, 0)] []);
      (Connected 1 0, mkObs 2 [(true, 0, 0); (true, 0, 0)] []);
      (Protect 0 0,   mkObs 2 [(true, 0, 0); (true, 0, 0)] []);
-     (ForceTrim,     mkObs 2 [(true, 0, 0); (true, 0, 0)] [(0%nat, 0%nat)])] = [ERR_PROPERTY; 3; 2].
+     (ForceTrim,     mkObs 2 [(true, 0, 0); (true, 0, 0)] [(0%nat, 0%nat)])] = [ERR_PROPERTY; 3; 22].
 Proof. vm_compute. reflexivity. Qed.
